@@ -98,6 +98,10 @@ impl EventIdGenerator {
 }
 
 fn current_millis() -> u64 {
+    #[cfg(sneldb_verif)]
+    if let Some(ms) = crate::verif_hooks::clock_ms() {
+        return ms;
+    }
     SystemTime::now()
         .duration_since(UNIX_EPOCH)
         .unwrap_or(Duration::ZERO)
